@@ -817,6 +817,48 @@ class Machine(object):
         return ['drop_unit', f, kinds, out.get('exc')]
 
     # ------------------------------------------------------------- C18
+    def do_mutate(self, op, idx):
+        """C18: the correlation object changes between two exports (the
+        store has a history): what is written must be its current state."""
+        L = self.libs.get(op['lib'])
+        if L is None:
+            return ['mutate-skip']
+        keys = sorted(L['model'])
+        if not keys:
+            return ['mutate-skip']
+        k = keys[op['ki'] % len(keys)]
+        corr = L['obs'][k]['thermochem']
+        how = op['how']
+
+        def go():
+            if how == 'del_H':
+                corr.del_ND_H_ref()
+            elif how == 'del_S':
+                corr.del_ND_S_ref()
+            elif how == 'set_range':
+                r = corr.get_range()
+                if r is None:
+                    corr.set_range((100.0, 3000.0))
+                else:
+                    corr.set_range((float(r[0]) - 25.0, float(r[1]) + 125.0))
+            elif how == 'del_Cp_point':
+                ts = sorted(corr.ND_Cp_data or {})
+                if ts:
+                    corr.del_ND_Cp(ts[op.get('ti', 0) % len(ts)])
+            elif how == 'del_Cp_all':
+                corr.del_ND_Cp()
+            elif how == 'update_from_other':
+                other = L['obs'][keys[(op['ki'] + 1) % len(keys)]]['thermochem']
+                corr.update(other, True)
+        out, _ = libops.record(go)
+        L['model'] = dict((g, _as_model(v)) for g, v in
+                          obs_lib(L['obs']).items()
+                          if not any(isinstance(x, dict) for x in
+                                     [v['T_ref'], v['H'], v['S']]))
+        L['digest'] = core.digest(obs_lib(L['obs']))
+        self.probe('mutated_between_exports_' + how)
+        return ['mutate', k, how, out.get('exc')]
+
     def do_export(self, op, idx):
         L = self.libs.get(op['lib'])
         if L is None:
@@ -894,6 +936,10 @@ def conflict_candidates(aw, f):
     return cands
 
 
+MUTATIONS = ['del_H', 'del_S', 'set_range', 'del_Cp_point', 'del_Cp_all',
+             'update_from_other']
+
+
 sg_block_kinds = ('molar enthalpy', 'molar entropy', 'molar heat capacity',
                   'temperature')
 
@@ -901,6 +947,8 @@ sg_block_kinds = ('molar enthalpy', 'molar entropy', 'molar heat capacity',
 def ev_target(op):
     if op['op'] in ('update', 'corr_update'):
         return op['dst']
+    if op['op'] == 'mutate':
+        return op['lib']
     if op['op'] == 'load':
         return op.get('as')
     return None
@@ -1150,8 +1198,16 @@ def gen_spec(run_seed, prop):
             t = rng.choice(EXPORT_T)
             if t:
                 units['temperature'] = t
-            ops.append({'op': 'export', 'lib': 'L0', 'ki': rng.randrange(50),
+            ki = rng.randrange(50)
+            ops.append({'op': 'export', 'lib': 'L0', 'ki': ki,
                         'units': units})
+            # the same object, changed, written again in the same units
+            while rng.random() < 0.45:
+                ops.append({'op': 'mutate', 'lib': 'L0', 'ki': ki,
+                            'how': rng.choice(MUTATIONS),
+                            'ti': rng.randrange(8)})
+                ops.append({'op': 'export', 'lib': 'L0', 'ki': ki,
+                            'units': units})
         return {'property': prop, 'run_seed': run_seed, 'aw': aw,
                 'pres': pres, 'ops': ops,
                 'config': {'faults': [], 'zero': zero}}
